@@ -2396,7 +2396,8 @@ sexp sexp_write_one (sexp ctx, sexp obj, sexp out, sexp_sint_t bound) {
     case SEXP_COMPLEX:
       sexp_write(ctx, sexp_complex_real(obj), out);
       if (!sexp_pedantic_negativep(sexp_complex_imag(obj))
-          && !sexp_infp(sexp_complex_imag(obj)))
+          && !sexp_infp(sexp_complex_imag(obj))
+          && !sexp_nanp(sexp_complex_imag(obj)))
         sexp_write_char(ctx, '+', out);
       if (sexp_complex_imag(obj) == SEXP_NEG_ONE)
         sexp_write_char(ctx, '-', out);
@@ -2769,6 +2770,14 @@ sexp sexp_read_complex_tail (sexp ctx, sexp in, sexp real) {
       default_real = real;
       real = (c=='-') ? SEXP_NEG_ONE : SEXP_ONE;
       goto trailing_i;
+    } else if (c2=='n' || c2=='N') { /* +nan.0i */
+      res = sexp_read_symbol(ctx, in, c2, 1);
+      if (res == sexp_intern(ctx, "nan.0i", -1)) {
+        res = sexp_make_flonum(ctx, sexp_nan);
+        res = sexp_make_complex(ctx, real, res);
+      } else {
+        res = sexp_read_error(ctx, "invalid complex numeric syntax", res, in);
+      }
     } else {
       sexp_push_char(ctx, c2, in);
       /* read imaginary part */
